@@ -294,6 +294,12 @@ class DescriptorTransaction(_TransactionBase):
             # need to know all to be deleted and to be created descriptors
             to_be_deleted_handles = [tr_item.old.Handle for tr_item in self.descriptor_updates.values()
                                      if tr_item.new is None and tr_item.old is not None]
+            # a deleted descriptor takes its whole sub-tree with it
+            for tr_item in self.descriptor_updates.values():
+                if tr_item.new is None and tr_item.old is not None:
+                    to_be_deleted_handles.extend(
+                        d.Handle for d in self._mdib.get_all_descriptors_in_subtree(tr_item.old)
+                        if d.Handle not in to_be_deleted_handles)
             to_be_created_handles = [tr_item.new.Handle for tr_item in self.descriptor_updates.values()
                                      if tr_item.old is None and tr_item.new is not None]
             # Remark 1:
@@ -326,6 +332,8 @@ class DescriptorTransaction(_TransactionBase):
                     self._update_corresponding_state(new_descriptor)
                 elif new_descriptor is None:
                     # this is a delete operation
+                    if self._mdib.descriptions.handle.get_one(orig_descriptor.Handle, allow_none=True) is None:
+                        continue  # already removed together with the sub-tree of an ancestor deleted by this transaction
                     self._logger.debug(  # noqa: PLE1205
                         'transaction_manager: rm descriptor Handle={}, DescriptorVersion={}',
                         orig_descriptor.Handle, orig_descriptor.DescriptorVersion)
